@@ -18,7 +18,7 @@ impl WrappedWrite {
 }
 impl Command {
 /*@fn file=src/command/mod.rs impl="impl Command" name=fprd canary=0
-    ensures r.command == (Reads::Fprd { address, register })
+    ensures r.command == (Reads::Fprd { address, register }), r.wkc == Some(1u16)
 @*/
 /*@fn file=src/command/mod.rs impl="impl Command" name=fpwr canary=0
     ensures r.command == (Writes::Fpwr { address, register }), r.wkc == Some(1u16), r.len_override is None
